@@ -21,8 +21,8 @@ CHECKS.update({
     "C01": dict(cat="proof", ref="3 C01", technique=BF + "; forms discovered from the trait/inherent impls",
         text="Every discovered form of NOT/AND/OR/XOR (28 per type: named, in-place, operator traits by value/reference, compound assignment) is run on tables of symbolic bits for each n: the result equals a(m) op b(m) at every position (NOT re-masked above 2^n), has the right size, and borrowed operands are unchanged - for all table contents at once. Sibling forms agree because each equals the same specification; a per-operator form count guards against vacuity.",
         note="Trusted: " + TB + ". n in 0..8 (quick) / 0..12 (thorough), loops unrolled per n. Operand tables assumed well formed (C02); size mismatches are C17."),
-    "C02": dict(cat="other", ref="3 C02", technique="ownership rule on ADT field visibility + inductive invariant proved per public producer by bit-granular abstract interpretation of MIR (unused bits constant 0, block count) + abstract summary of eq/cmp",
-        text="Inductive invariant over all API histories: the representation fields are private to their module (rustc privacy), and every externally reachable body of those modules that returns or mutates a table is shown, on well-formed symbolic inputs and a partition of valid arguments, to hand back tables with table_size(n) blocks, the right num_vars and constant-0 bits at positions >= 2^n; derived/abstractly summarised eq, hash and cmp compare exactly the representation. Level 'other' because a few producers are UNDECIDED rather than proved (listed in the evidence).",
+    "C02": dict(cat="proof", ref="3 C02", technique="ownership rule on ADT field visibility + inductive invariant proved per public producer by bit-granular abstract interpretation of MIR (unused bits constant 0, block count) + abstract summary of eq/cmp",
+        text="Inductive invariant over all API histories: the representation fields are private to their module (rustc privacy), and every externally reachable body of those modules that returns or mutates a table is shown, on well-formed symbolic inputs and a partition of valid arguments, to hand back tables with table_size(n) blocks, the right num_vars and constant-0 bits at positions >= 2^n; derived/abstractly summarised eq, hash and cmp compare exactly the representation.",
         note="Trusted: " + TB + "; rustc privacy checking. from_blocks exempt by its stated precondition (checked to copy verbatim). Canonization producers use join-at-top for the data-dependent comparisons. n in 0..6 (quick) / 0..8 (thorough)."),
     "C06": dict(cat="proof", ref="3 C06", technique="abstract interpretation of MIR to path-condition/class pairs over clause-set Booleans; uniform-pair-predicate abstraction and exhaustive comparison with the statement's decision list",
         text="top_decomposition, is_pos_unate and is_neg_unate are run on a symbolic table for every (n, v): each path yields (condition, class). For n <= 3 the summary is compared with the statement on all tables; for n >= 4 every condition is shown to be the same per-position predicate on (c0,c1) at all 2^(n-1) positions and the decision is compared with the statement on all 15 non-empty value-pair sets. A refutation is a concrete table with the wrong class.",
@@ -33,6 +33,25 @@ CHECKS.update({
     "C17": dict(cat="proof", ref="3 C17", technique="abstract interpretation of MIR under two build configurations (debug-assertions+overflow-checks on/off): reachability of a return for invalid-argument partitions, equality of abstract results for valid ones",
         text="For every public method with an index/assignment/block-slice parameter, n in 0..8 and a partition of invalid values (n, n+1, 31/32, 63/64/65, n+70, usize::MAX; wrong slice lengths; mismatched operand sizes for every binary form of Lut), no path returns under either configuration; for valid arguments the abstract results of both configurations are identical and no panic path is feasible.",
         note="Trusted: " + TB + " for both configurations. StaticLut size mismatches are rejected by the type checker (compile-fail witness in C10 thorough). Canonization, bdd and text methods take no index parameter and are outside this property's scope."),
+})
+
+PP = "path-policy abstract interpretation of the canonization walks on symbolic tables (the data-dependent comparisons are fixed by a policy per abstract path), plus predicates on the evaluated constant sequences"
+CHECKS.update({
+    "C04": dict(cat="other", ref="3 C04 (revised: section 8)", technique=PP,
+        text="For each canonization, type and n in the tier's range the walk is run on a symbolic table along the path where no visited table is smaller: it terminates normally, returns the input unchanged, compares every visited table against the best so far (most significant word first), and the visited tables plus the input are exactly the orbit of the input under the group (computed on symbolic tables, hence for every function). Constant flip/swap sequences are closed covering cycles. Minimality follows with the order decided by C08.",
+        note="Partial: hard-coded sequences only (p n<=5/6, n n<=6, npn n<=3/4 quick/thorough); runtime-generated sequences (n>=7) not decided. Trusted: " + TB + "; the step from 'every orbit element visited and the strictly smaller kept' to 'minimum returned'."),
+    "C05": dict(cat="other", ref="3 C05 (revised: section 8)", technique=PP,
+        text="Along the path where no comparison succeeds the returned certificate is the identity; along the path where exactly the k-th comparison succeeds the returned table is the k-th visited table and the returned (perm, mask) maps the symbolic input to it by the statement's formula, perm a permutation and mask without bits above n - for every comparison index k (sampled for the longest walks in the quick tier), every n in range, both types.",
+        note="Partial: n ranges as C04. Paths with several successful comparisons are covered by the last-success index only (decoder depends only on the final index). Trusted: " + TB),
+    "C08": dict(cat="other", ref="3 C08", technique="abstract summary of Ord::cmp on symbolic tables (reversed word views, lexicographic); per-path word-level terms of the successor kernel; iterator typestate by abstract interpretation",
+        text="Ord::cmp of both types compares the two tables word for word, most significant word first, as unsigned integers (Lut: variable count first); PartialOrd forwards to it. The iterator hands out a copy of the current table, steps it by (w+1)&mask per word with carry into the next word exactly on wrap-around, clears its flag exactly when all words wrapped, and yields None afterwards; all_functions starts at zero.",
+        note="Not decided: the induction from the per-step facts to 'every function exactly once', transitivity of integer order, agreement with hex order (C09). Trusted: " + TB + "; multiword-increment lemma."),
+    "C10": dict(cat="proof", ref="3 C10", technique="type-level facts (aliases, API parity) + differential abstract interpretation of Lut vs StaticLut methods on identical symbolic inputs (uninterpreted functions for unmodelled read-only kernels) + bitflow on conversions",
+        text="All 13 aliases tie N to max(1,2^N/64) blocks and are exported; every public method/trait impl has its counterpart; for every common method, n and valid argument partition the abstract results of Lut and StaticLut on the same symbolic table are identical; TryFrom fails exactly on a different variable count and copies blocks verbatim, From copies verbatim, integer conversions map bit m to f(m) with matching widths.",
+        note="Trusted: " + TB + "; read-only kernels that are not modelled (formatting, BDD counting) are treated as uninterpreted functions of their abstract arguments. Compile-fail witnesses W2/W3 run in the thorough tier."),
+    "C19": dict(cat="other", ref="3 C19", technique="bit-provenance by abstract interpretation: every result bit is traced to a distinct fresh generator bit or the constant 0",
+        text="In random() of both types every table bit below 2^n is a copy of a distinct bit of a fresh next_u64 draw from rand::thread_rng (one draw per word), every bit at or above 2^n is constant 0, the crate has no static state, and the function disappears without the rand feature (thorough).",
+        note="Not decided: statistical quality/independence of rand's generator (trusted dependency)."),
 })
 
 NOT_APPLICABLE = {
